@@ -9,7 +9,7 @@ CHECKS = {
          "Every execution of a hostile generated workload (all catalogue and generated subjects, both value sources) is recorded through a recording error type whose values are linear tokens; the oracle checks that the multiset of report ids created equals the multiset held by the returned error, and that Ok is returned only if none was created. For each payload every BreakFrom(k) answer script is enumerated, plus random scripts. Held on the executions observed, not a proof.",
          "Trusted: the recording error type and the instrumented value source in /verif/harness/monitor; the property's premise that the error type keeps what it is handed.", "§4 C01"),
  "C03": ("fault_enumeration", "runtime monitor: run-vs-run trace comparison for every Break position + local after-Break rule on recorded traces",
-         "For every generated case the keep-going trace is recorded, then the run is repeated under BreakFrom(k) for every decision index k: the prefix must be identical, after the stop only hand-overs of the already built error may occur, and k=0 must return exactly the first keep-going report. Random scripts are checked against the local after-Break rule.",
+         "For every generated case the keep-going trace is recorded, then the run is repeated under BreakFrom(k) for every decision index k: the prefix must be identical, after the stop only hand-overs of the already built error may occur, and k=0 must return exactly the first keep-going report. Random scripts and answer policies are checked against the local after-Break rule. Long sequences / maps (1024..3000 entries, faults at and around indices 255, 1023, 2047) are enumerated the same way.",
          "Trusted: the monitor kit; deserr is deterministic so run-vs-run comparison is meaningful.", "§4 C03"),
  "C04": ("exploration", "runtime monitor: every recorded report and hand-over resolved against the original payload; hand-over sets vs reference model",
          "Every report and every hand-over of every monitored run is checked against the payload (location resolves, quoted value IS the node there, missing really missing, unknown really present ...); per report the set of hand-over locations is compared with the reference model (keep-going run), and under every other answer script (always-Break, BreakFrom(k), random, nine answer policies by kind of decision) every hand-over must be at a position the types require, the first at the deepest. Faults are placed systematically at every position of valid payloads.",
@@ -18,7 +18,7 @@ CHECKS = {
          "Every keep-going execution of random multi-fault payloads, of every single and double structural mutation of valid payloads and of the per-field state product is recorded; the multiset of (digest, location) reports held by the returned error must equal the reference interpreter's, Unexpected messages must state the model's facts, and every node the model deserializes must have been examined.",
          "Trusted: monitor kit and the reference interpreter (Appendix A), itself validated by agreement with the implementation on every fault-free control and by the break experiments.", "§4 C02"),
  "C06": ("exploration", "runtime monitor: Ok projections and reports of container targets vs reference interpreter over systematic length/position mutations",
-         "For every container shape the projection of the Ok value (order, set/map semantics, None-iff-null) and the reports (arity, key parse) are compared with the reference interpreter over valid payloads of lengths 0..6 and every single structural mutation of them.",
+         "For every container shape the projection of the Ok value (order, set/map semantics, None-iff-null) and the reports (arity, key parse) are compared with the reference interpreter over valid payloads of lengths 0..6 and every single structural mutation of them, plus repeated / aliased map keys, duplicate set elements, zero-sized element types and non-finite floats through the second value source. A panic where an outcome is specified is a violation.",
          "Trusted: ToProj projections of std types (monitor::proj), reference interpreter.", "§4 C06"),
  "C07": ("exploration", "runtime monitor: sentinel values under every plausible key, Ok projection vs reference interpreter with hand-written / generator-computed effective keys",
          "Payloads over the union of plausible keys of every field, each carrying its own sentinel, identify the key each field was read from; compared with the reference interpreter whose effective keys never come from the macro.",
@@ -36,7 +36,7 @@ CHECKS = {
          "Instrumented from/try_from/map/validate functions log every call; the call multiset, foreign reports, hand-over sets and values are compared with the reference interpreter, which error type receives each report first is compared too, and model-free trace rules check the exactly-once crossing of field-level error types, that nothing below a container happens after its validate, and (under nine answer policies) the hand-over chain and that no extra user function runs.",
          "Trusted: instrumented functions mirrored in refmodel::vf.", "§4 C11"),
  "C15": ("exploration", "runtime monitor: metamorphic comparison of recorded runs under all member permutations (no model)",
-         "Every object of every generated payload is presented in all permutations of its members (<= 5 members, random beyond) through the order-preserving instrumented source; Ok projections and report multisets must be equal.",
+         "Every object of every generated payload is presented in all permutations of its members (<= 5 members, random beyond) through the order-preserving instrumented source; Ok projections, the multisets of reports received and held, and the multiset of (report, hand-over location) pairs must be equal. Bulky cases flood one object with 17..40 stray members.",
          "Trusted: determinism of deserr; unique keys.", "§4 C15"),
  "C12": ("fault_enumeration", "runtime monitor: catch_unwind around every call of a hostile workload + observed child processes on small stacks at depth 128",
          "Every deserialize call of a hostile workload (all subjects x adversarial payloads x answer scripts x value sources x built-in error types fed by serde_json and by the second value source) runs under catch_unwind; a child process runs all subjects on depth-128 nestings on 2 MiB and 8 MiB stacks and its termination status is observed.",
@@ -45,7 +45,7 @@ CHECKS = {
          "For every failing payload the JsonError / QueryParamError message is checked (by containment) against the first report of the recorded keep-going run: rendered path, offending value as JSON text, missing field, unknown key/value with every alternative, suggestion iff an independent Damerau-Levenshtein spec gives one, lengths, detail message; the path parsed back from the JsonError message must resolve to the quoted value.",
          "Trusted: monitor kit; independent edit-distance spec in refmodel::specs; wording is never compared.", "§4 C14"),
  "C20": ("exploration", "runtime monitor: differential execution of the deserr extractors against the frameworks' own extractors composed with deserr::deserialize",
-         "Every generated request (valid / ill-typed / malformed bodies, 24 content types, body limits, chunking, query strings) is run through the framework's own extractor and through the deserr extractor; status, content type, body bytes, the identity of the carried error and the accepted value must agree with framework extractor composed with deserr::deserialize.",
+         "Every generated request (valid / ill-typed / malformed bodies, rejection messages of 9..40 KiB, 24 content types, body limits, chunking, query strings, a second extraction from the same request after its URI was rewritten) is run through the framework's own extractor and through the deserr extractor; status, content type, body bytes, the identity of the carried error and the accepted value must agree with framework extractor composed with deserr::deserialize.",
          "Trusted: actix-web / axum at the versions in Cargo.lock; no socket or router involved; a defect shared by deserialize and the extractors is invisible to a differential oracle.", "§4 C20"),
  "C05": ("exploration", "runtime monitor: every scalar target driven over exhaustive integer ranges and boundary sets, outcome vs independent i128/u128 arithmetic and exact-rounding spec",
          "All 30 scalar targets are driven through both value sources over all integers in [-70000, 70000], every 2^k-1/2^k/2^k+1 up to 2^64, every MIN/MAX +-1, ~2600 floats, strings of 0..4 scalars and every non-scalar kind; acceptance, exact value (floats bit-for-bit against a decimal-string rounding spec), accepted-kind sets and the facts in domain messages are checked by independent arithmetic.",
@@ -54,16 +54,16 @@ CHECKS = {
          "Every document of <= 4 nodes over a scalar alphabet, 58 numeric boundary literals, random documents, and programmatically built documents nested up to 2000 levels or 70000 elements wide are and sent through Deserr for serde_json::Value and From<Value>; equality as values and as serialised text, kind() vs into_value().kind() at every node, and number classification against the literal's syntax.",
          "Trusted: serde_json's parser; the one documented corner that serde_json holds `-0` as a float.", "§4 C13"),
  "C16": ("exploration", "runtime monitor over the compiler's JSON diagnostics stream: every poisoned derive input must be rejected by a macro-issued diagnostic, every twin must compile",
-         "A matrix of 197 rejection causes (cause x level x spelling x item kind), each in the presence of every legal other attribute of its level and with foreign inert attributes (tool attributes, doc, cfg_attr, serde) before / between / after, is instantiated around seed-varied base items; the real macro runs inside cargo check and the diagnostics log is attributed to items by span. Every poisoned item needs an error without rustc code (a compile_error! from the derive), no diagnostic may mention a panic, every unpoisoned twin must compile (else inconclusive).",
+         "A matrix of 206 rejection causes (cause x level x spelling x item kind), each in the presence of every legal other attribute of its level and with foreign inert attributes (tool attributes, doc, cfg_attr, serde) before / between / after, is instantiated around seed-varied base items; the real macro runs inside cargo check and the diagnostics log is attributed to items by span. Every poisoned item needs an error without rustc code (a compile_error! from the derive), no diagnostic may mention a panic, every unpoisoned twin must compile (else inconclusive).",
          "Trusted: rustc's JSON diagnostics and span attribution; diagnostics are those of the pinned stable toolchain.", "§4 C16"),
  "C17": ("exploration", "runtime monitor: exhaustive enumeration of kind sequences, phrase parsed and compared with an independent set-based spec",
          "All 37 448 sequences of length 1..5, the empty list and every permutation of every subset of size 6-8 are passed to value_kinds_description_json; outputs must depend on the set only, parse as a / a or b / a, b, or c over the pinned vocabulary, name exactly the set (number / integer merging) in one consistent order.",
          "Trusted: the item vocabulary pinned by the repository's own snapshot test.", "§4 C17"),
  "C18": ("exploration", "runtime monitor: did_you_mean vs an independent true Damerau-Levenshtein implementation, exhaustive over a 3-letter alphabet up to length 6",
-         "All 1093^2 (received, candidate) pairs over {a,b,c} up to length 6 plus random multi-candidate lists, ties, multi-byte strings around every budget threshold; result must be empty or the earliest accepted string at minimal true DL distance within the byte-length budget.",
+         "All 1093^2 (received, candidate) pairs over {a,b,c} up to length 6 plus random multi-candidate lists (0..6 names, one case in fifty 33..80), ties, long lists with ties, strings of 246..540 bytes, multi-byte strings and characters that escaping rewrites, around every budget threshold; result must be empty or the earliest accepted string at minimal true DL distance within the byte-length budget.",
          "Trusted: the independent distance implementation (self-checked against breadth-first search over edits at start-up).", "§4 C18"),
  "C19": ("exploration", "runtime monitor: real push_key/push_index chains for all paths of <= 6 steps, accessors compared with the pushed steps",
-         "All 55 987 paths of up to 6 steps over 3 keys and 3 indices plus random paths up to length 200 are built with real borrow chains; to_owned (via Debug), is_origin, first_field, last_field are compared with the list of pushed steps.",
+         "All 55 987 paths of up to 6 steps over 3 keys and 3 indices plus random paths up to length 200 (keys from pointer syntaxes, repeated keys, indices around isize::MAX) are built with real borrow chains, every push and query under catch_unwind (a panic is a violation with its path); to_owned (via Debug), is_origin, first_field, last_field are compared with the list of pushed steps.",
          "Trusted: the Debug rendering of ValuePointer (its component type is not exported).", "§4 C19"),
 }
 PENDING = {
